@@ -75,7 +75,6 @@ ITER_MAKERS = [
     r"^std::collections::BTreeMap::<K, V, A>::iter$",
     r"^std::collections::BTreeMap::<K, V, A>::keys$",
     r"^std::collections::btree_map::BTreeMap::<K, V, A>::(values|iter|keys)$",
-    r"^std::iter::Iterator::skip$",
     r"^std::iter::Iterator::cloned$",
     r"^std::iter::Iterator::copied$",
     r"^std::iter::Iterator::peekable$",
@@ -149,8 +148,16 @@ class Origins:
                 pending_dc = None
                 cur = {self._field(t, label) for t in cur}
                 continue
-            if "idx" in e or "cidx" in e:
-                cur = {("elem", t) for t in cur}
+            if "idx" in e:
+                ks = self.of_local(e["idx"])
+                kc = [k[1] for k in ks if k[0] == "const" and isinstance(k[1], int)]
+                if len(ks) == 1 and len(kc) == 1:
+                    cur = {("elem", t, kc[0]) for t in cur}
+                else:
+                    cur = {("elem", t, ("ix", frozenset(ks))) for t in cur}
+                continue
+            if "cidx" in e:
+                cur = {("elem", t, e["cidx"]) if not e.get("from_end") else ("elem", t) for t in cur}
                 continue
             if "sub" in e:
                 continue
@@ -160,6 +167,9 @@ class Origins:
         # transparent payloads of Option / Result / ControlFlow
         if label in ("Some.0", "Ok.0", "Err.0", "Continue.0", "Break.0"):
             return t
+        # elaborated Box deref: `b.0.pointer` is the box's pointee
+        if label == "pointer" and t[0] == "field" and t[2] == "0":
+            return t[1]
         if t[0] == "agg":
             # field of a known aggregate
             fn = t[3] if len(t) > 3 else None
@@ -199,6 +209,8 @@ class Origins:
             else:
                 out.add(("param", l))
         for kind, payload, blk, proj in self.defs.get(l, []):
+            if proj and proj[0] == "deref":
+                continue  # a store through the pointer does not change what the pointer is
             if proj:
                 # partial write (field init of a local aggregate): record as fieldset
                 val = (
@@ -282,6 +294,11 @@ class Origins:
                 else:
                     out.add(("iter", a))
             return out
+        if callee in ("std::iter::Iterator::skip", "std::iter::Iterator::take", "std::iter::Iterator::step_by",
+                      "std::iter::Iterator::filter", "std::iter::Iterator::skip_while", "std::iter::Iterator::take_while"):
+            name = callee.split("::")[-1]
+            arg = frozenset(A[1]) if len(A) > 1 else frozenset()
+            return {("adapt", name, a, arg) for a in first()}
         if callee == "std::iter::Iterator::enumerate":
             return {("enum", a[1] if a[0] == "iter" else a) for a in first()}
         if callee in ("std::iter::Iterator::rev",):
@@ -289,6 +306,8 @@ class Origins:
         if callee in ("std::iter::Iterator::next", "std::iter::DoubleEndedIterator::next_back"):
             out = set()
             for a in first():
+                while a[0] == "adapt":
+                    a = a[2]
                 if a[0] == "iter":
                     out.add(("elem", a[1]))
                 elif a[0] == "enum":
@@ -300,6 +319,12 @@ class Origins:
                     out.add(("elem", a))
             return out
         if callee in ("std::ops::Index::index", "std::ops::IndexMut::index_mut"):
+            ks = A[1] if len(A) > 1 else set()
+            kc = [k[1] for k in ks if k[0] == "const" and isinstance(k[1], int)]
+            if len(ks) == 1 and len(kc) == 1:
+                return {("elem", a, kc[0]) for a in first()}
+            if ks:
+                return {("elem", a, ("ix", frozenset(ks))) for a in first()}
             return {("elem", a) for a in first()}
         if is_transparent(callee) or any(r.match(callee) for r in self.extra_transparent):
             return first()
@@ -309,16 +334,14 @@ class Origins:
 
 def term_mentions(t, pred):
     """True if any sub-term satisfies pred."""
-    if pred(t):
-        return True
+    if isinstance(t, (frozenset, set, list)):
+        return any(term_mentions(x, pred) for x in t)
     if isinstance(t, tuple):
-        for x in t[1:]:
-            if isinstance(x, tuple) and term_mentions(x, pred):
+        if t and isinstance(t[0], str):
+            if pred(t):
                 return True
-            if isinstance(x, frozenset):
-                for y in x:
-                    if term_mentions(y, pred):
-                        return True
+            return any(term_mentions(x, pred) for x in t[1:] if isinstance(x, (tuple, frozenset)))
+        return any(term_mentions(x, pred) for x in t)
     return False
 
 
@@ -337,6 +360,13 @@ def fmt_term(t, depth=0):
         return f"{t[1].split('::')[-1]}({args})"
     if h == "view":
         return f"as_{t[1]}({fmt_term(t[2], depth+1)})"
+    if h == "elem" and len(t) > 2:
+        ix = t[2]
+        if isinstance(ix, tuple) and ix and ix[0] == "ix":
+            ix = "|".join(sorted(fmt_term(x, depth + 1) for x in ix[1]))
+        return f"{fmt_term(t[1], depth+1)}[{ix}]"
+    if h == "adapt":
+        return f"{fmt_term(t[2], depth+1)}.{t[1]}({'|'.join(sorted(fmt_term(x, depth+1) for x in t[3]))})"
     if h in ("iter", "elem", "enum", "index", "rev", "len", "discr", "enumitem"):
         return f"{h}({fmt_term(t[1], depth+1)})"
     if h == "agg":
